@@ -400,12 +400,31 @@ impl SendChannelReliable {
     pub fn verif_memory(&self) -> usize {
         self.memory_usage_bytes
     }
+
+    /// Moves the message id counter of an idle channel forward, as if that many messages had been sent and acknowledged.
+    pub fn verif_warp(&mut self, message_id: u64) {
+        if self.unacked_messages.is_empty() {
+            self.next_reliable_message_id = message_id;
+        }
+    }
 }
 
 #[cfg(renet_verif)]
 impl ReceiveChannelReliable {
     pub fn verif_memory(&self) -> usize {
         self.memory_usage_bytes
+    }
+
+    /// Moves the delivery cursor of an idle channel forward, as if that many messages had been received and obtained.
+    pub fn verif_warp(&mut self, message_id: u64) {
+        if self.messages.is_empty() && self.slices.is_empty() {
+            self.oldest_pending_message_id = message_id;
+            if let ReliableOrder::Unordered { most_recent_message_id, received_messages } = &mut self.reliable_order {
+                if received_messages.is_empty() {
+                    *most_recent_message_id = message_id;
+                }
+            }
+        }
     }
 
     /// (oldest pending message id, buffered message ids, message ids under reassembly)
